@@ -356,10 +356,19 @@ func c20Text(c *fw.Ctx, fam string, idx int, text string, viaCLI bool) {
 	in := fileArgs(path)
 	if len(errs) > 0 {
 		// invalid input: records null, errors as reported by the parser / the terminal report
-		facts, why := c10Errors(sm.SplitLines(text), errs)
-		if why != "" {
-			c.Outcome("skipped-bad-error-facts") // C10's business
-			return
+		// what the parser's errors say through the accessors the terminal report uses (whether those facts are RIGHT
+		// is C10's business; here the JSON report must carry the same ones)
+		var facts []errFacts
+		for _, e := range errs {
+			e := e
+			var f errFacts
+			if p, _, _ := tryRun(func() {
+				f = errFacts{line: e.LineNumber(), pos: e.Position(), length: e.Length(), text: e.LineText(), title: e.Title(), details: e.Details()}
+			}); p {
+				c.Outcome("skipped-bad-error-facts") // an accessor panics: C06's / C10's business
+				return
+			}
+			facts = append(facts, f)
 		}
 		for _, pretty := range []bool{false, true} {
 			r := clidrv.Exec(home, clidrv.Opts{Now: fixedNow}, &cli.Json{Pretty: pretty, InputFilesArgs: in})
